@@ -66,7 +66,8 @@ def conic_sag(r, R, k):
     return r * r / (R * (1 + math.sqrt(1 - (1 + k) * r * r / (R * R))))
 
 
-def gen_config(rng, name, edits=None, vignetting=None, medium=None, contact_stop=None):
+def gen_config(rng, name, edits=None, vignetting=None, medium=None, contact_stop=None, entry=None, route=None,
+               rescale=None):
     """returns dict(name, params, spec, scale, edits) ; scale = characteristic path length (for tolerances).
     edits: None = with probability 1/2 the stigmatic prescription is reached through an edit history
     (see add_edit_history)"""
@@ -225,12 +226,41 @@ def gen_config(rng, name, edits=None, vignetting=None, medium=None, contact_stop
         contact_stop = name in CONTACT_STOP_OK and rng.random() < 0.35
     if contact_stop and name in CONTACT_STOP_OK:
         contact = add_contact_stop(spec)
+    # how a conic is ENTERED: as a standard surface, or through the asphere surface types with no polynomial term
+    # (Newton-Raphson intersection instead of the closed-form one)
+    has_conic = any(s_.get('conic') for s_ in spec['surfaces']) and asphere_entry_ok(name, p)
+    if entry is None:
+        entry = rng.choice(['standard'] * 7 + ['asphere', 'asphere', 'polynomial_tight']) if has_conic else 'standard'
+    if entry != 'standard' and has_conic:
+        for s_ in spec['surfaces']:
+            if s_.get('conic'):
+                if entry == 'asphere':            # factory default tolerance (1e-6 mm) of the iteration
+                    s_['type'] = 'even_asphere'
+                    s_['coefficients'] = rng.choice([[], [0.0], [0.0, 0.0]])
+                else:
+                    s_['type'] = 'polynomial'
+                    s_['coefficients'] = [[0.0]]
+                    s_['tol'] = 1e-13
+                    s_['max_iter'] = 100
+    else:
+        entry = 'standard'
     cfg = {'name': name, 'params': p, 'spec': spec, 'scale': scale, 'image_in_glass': None, 'edits': [],
-           'vignetting': [0.0, 0.0], 'medium_class': medium_class, 'contact_stop': contact}
+           'vignetting': [0.0, 0.0], 'medium_class': medium_class, 'contact_stop': contact, 'entry': entry,
+           'route': 'direct', 'route_seed': rng.randrange(10 ** 9), 'scaled_by': None}
     if edits is None:
         edits = rng.random() < 0.5
     if edits:
         add_edit_history(rng, cfg)
+    # history class: the lens is built 1/s times its size and brought to size with Optic.scale_system(s)
+    if rescale is None:
+        rescale = rng.random() < 0.3
+    if rescale:
+        sf = rescale if isinstance(rescale, float) else rng.choice([0.4, 2.5, rng.uniform(0.3, 3.0)])
+        add_scale_history(cfg, sf)
+    # route by which the Optic object is reached (tools/lensgen.build_via)
+    if route is None:
+        route = rng.choice(['direct'] * 11 + ['handbuilt'] * 3 + ['reuse'] * 3 + ['roundtrip'] * 3)
+    cfg['route'] = route
     if vignetting is None:
         vignetting = rng.random() < 0.4
     if vignetting:
@@ -239,6 +269,8 @@ def gen_config(rng, name, edits=None, vignetting=None, medium=None, contact_stop
         v = lambda: rng.choice([0.0, round(rng.uniform(0.05, 0.5), 3)])      # noqa: E731
         vx, vy = rng.choice([(v(), v()), (rng.uniform(0.05, 0.5), 0.0), (0.0, rng.uniform(0.05, 0.5)),
                              (rng.uniform(0.05, 0.5), rng.uniform(0.05, 0.5))])
+        if vignetting == 'unequal':
+            vx, vy = rng.choice([(0.1, 0.3), (0.25, 0.0), (0.0, 0.35)])
         cfg['vignetting'] = [vx, vy]
         for sp in (cfg['spec'], cfg.get('final_spec')):
             if sp:
@@ -376,7 +408,7 @@ def add_edit_history(rng, cfg):
             # a wrong radius, or a surface that was first entered flat (Plane -> StandardGeometry on set_radius)
             # (a flat surface built WITH a conic drops it - Plane has no k - so flat-first is only used when
             # the history also sets the conic, or there is none)
-            flat_ok = conic_edit or not s1.get('conic')
+            flat_ok = (conic_edit or not s1.get('conic')) and s1.get('type', 'standard') == 'standard'
             s0['radius'] = INF if (flat_ok and rng.random() < 0.3) else s1['radius'] * rng.uniform(1.05, 1.4)
             edits.append(['radius', num, s1['radius']])
         if rng.random() < 0.5:
@@ -401,9 +433,93 @@ def add_edit_history(rng, cfg):
     return cfg
 
 
+def corpus():
+    """fixed cases, one per CLASS that matters (independent of the seed of the run): every class below is forced,
+    the other dimensions are switched off"""
+    import random
+    off = dict(edits=False, vignetting=False, medium='air', contact_stop=False, entry='standard', route='direct',
+               rescale=False)
+    items = [
+        ('ellipsoid', dict(entry='asphere')), ('ellipsoid', dict(entry='polynomial_tight')),
+        ('cassegrain', dict(entry='asphere')), ('parab', dict(entry='asphere', edits=True)),
+        ('ellipsoid', dict(rescale=2.5)), ('sphere_cc', dict(rescale=0.4)), ('planohyp', dict(rescale=3.0)),
+        ('parab', dict(medium='immersed')), ('parab', dict(medium='solid')), ('ellipsoid', dict(medium='immersed')),
+        ('cassegrain', dict(medium='solid')),
+        ('ellipsoid_lens', dict(contact_stop=True)),
+        ('parab', dict(vignetting='unequal')), ('planohyp', dict(vignetting='unequal')),
+        ('parab', dict(edits=True)), ('ellipsoid', dict(edits=True)),
+        ('ellipsoid', dict(route='reuse')), ('planohyp', dict(route='roundtrip')), ('cassegrain', dict(route='handbuilt')),
+        ('aplanat', dict(route='reuse', edits=True)),
+    ]
+    out = []
+    for i, (name, kw) in enumerate(items):
+        for k in range(50):      # the forced entry type needs an instance whose rim ray allows it
+            cfg = gen_config(random.Random(1000 + i + 100 * k), name, **{**off, **kw})
+            if cfg['entry'] == kw.get('entry', 'standard'):
+                break
+        if name in IMMERSED:
+            cfg['image_in_glass'] = True
+        cfg['corpus'] = '%s:%s' % (name, ','.join('%s=%s' % kv for kv in sorted(kw.items())))
+        out.append(cfg)
+    return out
+
+
+def corpus_virtual():
+    import random
+    off = dict(edits=False, vignetting=False, medium='air', contact_stop=False, entry='standard', route='direct',
+               rescale=False)
+    out = []
+    for i, kw in enumerate([dict(contact_stop=True), dict(medium='immersed'), dict(rescale=2.5), dict(route='roundtrip'),
+                            dict(edits=True)]):
+        cfg = gen_config(random.Random(2000 + i), 'hyperboloid_far', **{**off, **kw})
+        cfg['corpus'] = 'hyperboloid_far:' + ','.join('%s=%s' % kv for kv in sorted(kw.items()))
+        out.append(cfg)
+    return out
+
+
+def asphere_entry_ok(name, p):
+    """the Newton-Raphson surfaces start from the intersection with the vertex SPHERE: only conics whose rim ray stays
+    well inside |Rc| (closed form from the generated parameters) are entered through the asphere types"""
+    if name in ('parab', 'parab_fold'):
+        return True                                  # rim height |R| / (4 F#) <= 0.42 |R|
+    if name == 'ellipsoid':
+        R, e = p['R'], p['e']
+        N = math.sqrt(1 - p['na'] ** 2)
+        t = -R / (1 + e * N) if p['near_first'] else -R / (1 - e * N)     # polar equation about the object focus
+        return t * p['na'] <= 0.7 * abs(R)
+    if name in ('cassegrain', 'gregorian'):
+        fp = p['R1'] / 2
+        h1 = abs(fp) / p['fno1'] / 2
+        h2 = h1 * abs(fp - p['d']) / abs(fp) * 1.05
+        return h2 <= 0.6 * abs(p['R2'])
+    return False
+
+
+def add_scale_history(cfg, sf):
+    """cfg['spec'] (the prescription the Optic is built from) is shrunk by 1/sf in every length - radii, thicknesses,
+    a finite object distance, an entrance-pupil-diameter aperture - and ['scale', None, sf] becomes the FIRST edit:
+    Optic.scale_system must bring every length that is not edited afterwards to the stigmatic prescription"""
+    import copy
+    if not cfg.get('final_spec'):
+        cfg['final_spec'] = copy.deepcopy(cfg['spec'])
+    sp = cfg['spec']
+    for s_ in sp['surfaces']:
+        if math.isfinite(s_['radius']):
+            s_['radius'] = s_['radius'] / sf
+        s_['thickness'] = s_['thickness'] / sf
+    if math.isfinite(sp['object_thickness']):
+        sp['object_thickness'] = sp['object_thickness'] / sf
+    if sp['aperture'][0] == 'EPD':
+        sp['aperture'] = ['EPD', sp['aperture'][1] / sf]
+    cfg['edits'] = [['scale', None, sf]] + list(cfg['edits'])
+    cfg['scaled_by'] = sf
+
+
 def apply_edits(optic, edits):
     for kind, num, value in edits:
-        if kind == 'conic':
+        if kind == 'scale':
+            optic.scale_system(value)
+        elif kind == 'conic':
             optic.set_conic(value, num)
         elif kind == 'radius':
             optic.set_radius(value, num)
@@ -416,8 +532,10 @@ def apply_edits(optic, edits):
 
 
 def build(cfg):
+    import random as _random
+    import lensgen
     warnings.simplefilter('ignore')
-    o = build_spec(cfg['spec'])
+    o = lensgen.build_via(cfg['spec'], cfg.get('route', 'direct'), _random.Random(cfg.get('route_seed', 0)))
     apply_edits(o, cfg.get('edits') or [])
     if cfg.get('image_in_glass'):
         img = o.surface_group.surfaces[-1]
@@ -435,8 +553,11 @@ def pupil_points(rng, n):
     return pts[:n]
 
 
-def trace_pencil(optic, pts, w=WL):
-    """returns (launch, records) per ray: records[k] = 8 floats at surface k"""
+def trace_pencil(optic, pts, w=WL, one_by_one=False):
+    """returns (launch, records) per ray: records[k] = 8 floats at surface k.  one_by_one: each ray in its own call
+    (the Newton-Raphson surfaces stop on a batch-wide criterion; the trace model iterates per ray)"""
+    if one_by_one:
+        return [trace_pencil(optic, [p_], w)[0] for p_ in pts]
     Px = np.array([p[0] for p in pts], dtype=float)
     Py = np.array([p[1] for p in pts], dtype=float)
     optic.trace_generic(0.0, 0.0, Px, Py, w)
@@ -450,6 +571,15 @@ def trace_pencil(optic, pts, w=WL):
 
 
 ULP = 2.220446049250313e-16
+ASPHERE_DEFAULT_TOL = 1e-6
+
+
+def strehl_tolerance(cfg):
+    """1e-9, or the Marechal drop (2 pi sigma)^2 of the admitted wavefront error when the surface declares its own
+    iteration tolerance"""
+    if cfg.get('entry') == 'asphere':
+        return max(1e-9, (2 * math.pi * 4 * ASPHERE_DEFAULT_TOL / (WL * 1e-3)) ** 2)
+    return 1e-9
 
 
 def tolerances(cfg, min_cos=1.0):
@@ -457,6 +587,10 @@ def tolerances(cfg, min_cos=1.0):
     divided by the squared direction cosine of the steepest ray at the image plane (the conditioning of
     `where does this ray cross the plane`)"""
     tol_mm = 4096 * ULP * cfg['scale'] / max(min_cos, 0.05) ** 2
+    if cfg.get('entry') == 'asphere':
+        # entered through the even-asphere type with the factory's iteration tolerance (1e-6 mm): "numerical
+        # precision" is the declared tolerance of the intersection
+        tol_mm = max(tol_mm, ASPHERE_DEFAULT_TOL)
     # the wavefront adds the cancellation  opd - n * (distance back to the reference sphere): 4x the budget
     return tol_mm, 4 * tol_mm / (WL * 1e-3)
 
@@ -471,11 +605,12 @@ def oracle(cfg, rng, n_rays=24, wavefront=True, psf=True, samplings=None):
         o = build(cfg)
     except Exception as e:      # the configuration is a legal prescription: failing to build is a finding
         return [{'kind': 'build-raises', 'error': type(e).__name__ + ': ' + str(e)[:200]}]
+    bad.extend(prescription_check(cfg, o))
     pts = pupil_points(rng, n_rays)
     try:
         recs = trace_pencil(o, pts)
     except Exception as e:
-        return [{'kind': 'trace-raises', 'error': type(e).__name__ + ': ' + str(e)[:200]}]
+        return bad + [{'kind': 'trace-raises', 'error': type(e).__name__ + ': ' + str(e)[:200]}]
     img = [r[-1] for r in recs]
     cosines = [abs(r[-2][5]) for r in recs if math.isfinite(r[-2][5])]
     tol_mm, tol_w = tolerances(cfg, min(cosines) if cosines else 1.0)
@@ -533,7 +668,7 @@ def oracle(cfg, rng, n_rays=24, wavefront=True, psf=True, samplings=None):
                 s = float(ps.strehl_ratio())
                 if math.isnan(s):
                     bad.append({'kind': 'strehl-nan', 'num_rays': nr_, 'grid_size': grid})
-                elif not (abs(s - 1.0) <= 1e-9):
+                elif not (abs(s - 1.0) <= strehl_tolerance(cfg)):
                     bad.append({'kind': 'strehl-not-one', 'strehl': s, 'num_rays': nr_, 'grid_size': grid})
             except Exception as e:
                 bad.append({'kind': 'psf-raises', 'num_rays': nr_, 'grid_size': grid,
@@ -611,6 +746,28 @@ def oracle_virtual(cfg, rng, n_rays=24):
     if not bad and vals and max(vals) - min(vals) > tol:
         bad.append({'kind': 'unequal-optical-paths', 'spread': max(vals) - min(vals), 'tol': tol})
     return bad
+
+
+def prescription_check(cfg, optic):
+    """is the object - however it was reached (route, edit history, scale_system) - the stigmatic prescription that
+    was generated?  (tools/lensgen.prescription_problems: vertex positions, media, radii, conics; plus the object
+    distance and the entrance pupil diameter)"""
+    import lensgen
+    final = cfg.get('final_spec') or cfg['spec']
+    try:
+        bad = list(lensgen.prescription_problems(final, optic, WL))
+    except Exception as ex:      # noqa
+        return [{'kind': 'prescription', 'quantity': 'oracle raised', 'error': repr(ex)[:200]}]
+    if cfg.get('image_in_glass'):
+        bad = [b for b in bad if 'image' not in b.get('quantity', '')]
+    zo = float(np.ravel(optic.surface_group.positions[0])[0])
+    want = -final['object_thickness']
+    if not ((math.isinf(zo) and math.isinf(want)) or abs(zo - want) <= 1e-9 * (1 + abs(want))):
+        bad.append({'kind': 'prescription', 'quantity': 'object distance', 'implementation': -zo, 'entered': -want})
+    if final['aperture'][0] == 'EPD' and abs(optic.aperture.value - final['aperture'][1]) > 1e-9 * final['aperture'][1]:
+        bad.append({'kind': 'prescription', 'quantity': 'entrance pupil diameter', 'implementation': float(optic.aperture.value),
+                    'entered': final['aperture'][1]})
+    return bad[:4]
 
 
 def image_cone(optic, w=WL):
